@@ -43,7 +43,8 @@ def klass(members):
          'dict_str': d.get(g0.name) == 'v' and {g0.name: 1}.get(g0) == 1,
          'lib': [(g in lib) and lib[g] == {'thermochem': 'v'} for g in gs],
          'lib_str': (g0.name in lib) and lib[g0.name] == {'thermochem': 'v'},
-         'str_eq': bool(g0 == g0.name) and bool(g0.name == g0) and str(g0) == g0.name,
+         'str_eq': bool(g0 == g0.name) and bool(g0.name == g0) and str(g0) == g0.name
+         and not bool(g0 != g0.name) and not bool(g0.name != g0) and bool(g0 != g0.name + 'x') and not bool(gs[-1] != g0.name),
          'reparse': bool(Group.parse(None, g0.name) == g0)
          and Group.parse(None, g0.name).name == g0.name,
          'csg': g0.csg, 'psgs': sorted(gs[-1].psgs)}
